@@ -42,6 +42,8 @@ type C04Odd struct {
 	FnFn      func(func(int) int) int
 	RetFn     func() func(int) int
 	NilFn     func(int) int
+	PanicNil  func() int // panics with a nil value
+	PanicErr  func() int // panics with an error value
 	Ch        chan int
 	Cx        complex128
 	Arr       [3]int
@@ -76,6 +78,7 @@ func (C04Odd) MPanic() int          { panic("method panics") }
 func (C04Odd) MIface() fmt.Stringer { return nil }
 
 var c04OddSources = []string{
+	`PanicNil()`, `PanicNil() + 1`, `[1, PanicNil()]`, `map(Arr, {PanicNil()})`, `PanicErr()`, `P ? 1 : PanicNil()`,
 	`V`, `V + 1`, `C04SelfEmb`, `C04SelfEmb.V`, `A`, `A + 1`, `U`, `A in [1]`,
 	`NoRes("a", 1)`, `NoRes()`, `NoRes1(1)`, `TwoRes()`, `ErrRes(1)`, `ErrRes(1) + 1`, `ThreeRes()`, `VarInts(1, 2)`, `VarInts()`, `VarMixed("a")`, `VarMixed("a", 1, nil)`, `VarMixed()`, `VarMixed(1)`,
 	`FnFn(NilFn)`, `FnFn(RetFn())`, `RetFn()(1)`, `RetFn()`, `NilFn(1)`, `NilFn`, `Ch`, `Ch == nil`, `len(Ch)`, `Cx`, `Cx + 1`, `Cx == Cx`, `-Cx`, `Arr`, `Arr[0]`, `Arr[5]`, `Arr[1:2]`, `len(Arr)`, `ArrS[0] + "x"`, `1 in Arr`,
@@ -99,6 +102,7 @@ func c04OddEnv(r *runner.Rng) interface{} {
 	e := C04Odd{
 		NoRes: func(...interface{}) {}, NoRes1: func(int) {}, TwoRes: func() (int, int) { return 1, 2 }, ErrRes: func(n int) (int, error) { return n, fmt.Errorf("e") },
 		ThreeRes: func() (int, int, error) { return 1, 2, nil }, VarInts: func(...int) {}, VarMixed: func(string, ...interface{}) interface{} { return nil },
+		PanicNil: func() int { panic(nil) }, PanicErr: func() int { panic(fmt.Errorf("boom")) },
 		FnFn: func(f func(int) int) int { return f(1) }, RetFn: func() func(int) int { return func(i int) int { return i } },
 		Ch: make(chan int, 1), Cx: complex(1, 2), PP: &p, PPP: &pps, Loop: lp, IntKey: map[int]string{1: "a"}, IfKey: map[interface{}]int{1: 1, "a": 2}, StructKey: map[c04Inner]int{{1}: 1},
 		Bytes: []byte("ab"), Runes: []rune("ab"), Matrix: [][]int{{1}, {}},
@@ -182,6 +186,9 @@ func c04Odd(c *runner.Ctx, idx uint64) {
 		}
 		if o.Err != nil && o.Val != nil {
 			c.Violate("Run-error-with-value", "Run returned an error and a value", cas)
+		}
+		if o.Err == nil && (src == "PanicNil()" || src == "PanicNil() + 1" || src == "[1, PanicNil()]" || src == "PanicErr()") {
+			c.Violate("Run-no-error-after-panic-in-environment-function", fmt.Sprintf("the environment function panicked and Run returned %s without an error", o), cas)
 		}
 	}
 	o := SafeEval(src, env)
